@@ -108,7 +108,7 @@ Proof.
   unfold select_block.
   destruct (negb (f35 c) && has_tie imp (filter (cand_ok c L) (iblocks bs))); [discriminate|].
   destruct (best_of imp (filter (cand_ok c L) (iblocks bs)) None) as [b0|] eqn:E; [|discriminate].
-  destruct (is_future imp && negb (0 <? fst (key_of imp b0))); [discriminate|].
+  destruct (is_future imp && negb (if f46 c then existsb is_future (ib_imps b0) else 0 <? fst (key_of imp b0))); [discriminate|].
   intros H; inversion H; subst b0.
   apply best_of_in in E. destruct E as [E|E]; [|discriminate].
   apply filter_In in E. exact E.
